@@ -139,12 +139,16 @@ const FIELDS: [FieldSpec; 24] = [
 const IANA_FIELD: FieldSpec = FieldSpec { st: 6, idx: 0, name: "IANAMessageFormat.vendor_id", mask: 0xFFFF_FFFF, shift: 0 };
 
 /// Apply the library setter; returns (new raw, value read back through the getter).
-fn lib_set(f: &FieldSpec, raw: u32, v: u32) -> (u32, u32) {
+/// Returns (raw bytes right after construction, raw bytes after the setter, getter result). The
+/// from-bytes constructors may normalise bits no named field covers (benign/C18-k clears reserved
+/// bits), so "a setter changes only its own bits" is judged against the view as constructed.
+fn lib_set(f: &FieldSpec, raw: u32, v: u32) -> (u32, u32, u32) {
     let b = raw.to_be_bytes();
     let v8 = v as u8;
     match f.st {
         0 => {
             let mut h = MCTPSMBusHeader::new_from_buf(bb(b));
+            let h0 = h.0;
             let g = match f.idx {
                 0 => {
                     h.set_dest_read_write(bb(v8));
@@ -171,10 +175,11 @@ fn lib_set(f: &FieldSpec, raw: u32, v: u32) -> (u32, u32) {
                     h.source_slave_addr()
                 }
             };
-            (u32::from_be_bytes(h.0), g as u32)
+            (u32::from_be_bytes(h0), u32::from_be_bytes(h.0), g as u32)
         }
         1 => {
             let mut h = MCTPTransportHeader(bb(b));
+            let h0 = h.0;
             let g = match f.idx {
                 0 => {
                     h.set_hdr_version(bb(v8));
@@ -209,15 +214,17 @@ fn lib_set(f: &FieldSpec, raw: u32, v: u32) -> (u32, u32) {
                     h.msg_tag()
                 }
             };
-            (u32::from_be_bytes(h.0), g as u32)
+            (u32::from_be_bytes(h0), u32::from_be_bytes(h.0), g as u32)
         }
         2 => {
             let mut h = MCTPMessageBodyHeader(bb([raw as u8]));
+            let h0 = h.0;
             h.set_msg_type(bb(v8));
-            (h.0[0] as u32, h.msg_type() as u32)
+            (h0[0] as u32, h.0[0] as u32, h.msg_type() as u32)
         }
         3 => {
             let mut h = MCTPControlMessageHeader::new_from_buf(bb([(raw >> 8) as u8, raw as u8]));
+            let h0 = h.0;
             let g = match f.idx {
                 0 => {
                     h.set_rq(bb(v8));
@@ -236,10 +243,11 @@ fn lib_set(f: &FieldSpec, raw: u32, v: u32) -> (u32, u32) {
                     h.command_code()
                 }
             };
-            (((h.0[0] as u32) << 8) | h.0[1] as u32, g as u32)
+            (((h0[0] as u32) << 8) | h0[1] as u32, ((h.0[0] as u32) << 8) | h.0[1] as u32, g as u32)
         }
         4 => {
             let mut h = SMBusRoutingInformationUpdateEntry::new_from_buf(bb(b));
+            let h0 = h.0;
             let g = match f.idx {
                 0 => {
                     h.set_entry_type(bb(v8));
@@ -258,17 +266,19 @@ fn lib_set(f: &FieldSpec, raw: u32, v: u32) -> (u32, u32) {
                     h.physical_address()
                 }
             };
-            (u32::from_be_bytes(h.0), g as u32)
+            (u32::from_be_bytes(h0), u32::from_be_bytes(h.0), g as u32)
         }
         5 => {
             let mut h = PCIMessageFormat::new_from_buf(bb([(raw >> 8) as u8, raw as u8]));
+            let h0 = h.0;
             h.set_vendor_id(bb(v as u16));
-            (((h.0[0] as u32) << 8) | h.0[1] as u32, h.vendor_id() as u32)
+            (((h0[0] as u32) << 8) | h0[1] as u32, ((h.0[0] as u32) << 8) | h.0[1] as u32, h.vendor_id() as u32)
         }
         _ => {
             let mut h = IANAMessageFormat::new_from_buf(bb(b));
+            let h0 = h.0;
             h.set_vendor_id(bb(v));
-            (u32::from_be_bytes(h.0), h.vendor_id())
+            (u32::from_be_bytes(h0), u32::from_be_bytes(h.0), h.vendor_id())
         }
     }
 }
@@ -283,12 +293,16 @@ fn raw_width_mask(st: u8) -> u32 {
 
 pub fn check_setter(f: &FieldSpec, raw: u32, v: u32, rep: &mut Report) {
     let raw = raw & raw_width_mask(f.st);
-    let want_raw = (raw & !f.mask) | ((v << f.shift) & f.mask);
-    let want_get = (want_raw & f.mask) >> f.shift;
     rep.eval();
     match trap(|| lib_set(f, raw, v)) {
         Err(p) => rep.violation(&format!("{}:setter-panic", f.name), || format!("set_{}({:#x}) on raw {:#x} panicked: {}", f.name, v, raw, p.long()), || format!("set;{};{};{:x};{:x}", f.st, f.idx, raw, v)),
-        Ok((new_raw, got)) => {
+        Ok((built_raw, new_raw, got)) => {
+            // the named fields of the freshly built view must read the raw bytes (that is the getter
+            // property, checked by check_getter); here: the setter changes exactly its own bits of
+            // the view as built
+            let raw = built_raw;
+            let want_raw = (raw & !f.mask) | ((v << f.shift) & f.mask);
+            let want_get = (want_raw & f.mask) >> f.shift;
             if new_raw != want_raw {
                 let what = if (new_raw & !f.mask) != (raw & !f.mask) { "setter-clobbers-other-bits" } else { "setter-stores-wrong-value" };
                 rep.violation(
@@ -534,7 +548,7 @@ fn run(cfg: &RunCfg) -> Report {
         rep.sample(|| J::s(format!("MCTPSMBusHeader({:02x?}): dest_slave_addr={:#x} command_code={:#x} byte_count={} source_slave_addr={:#x} source_read_write={}", b, h.dest_slave_addr(), h.command_code(), h.byte_count(), h.source_slave_addr(), h.source_read_write())));
         let t = MCTPTransportHeader([0x01, 0x23, 0x34, 0xC8]);
         rep.sample(|| J::s(format!("MCTPTransportHeader([01,23,34,c8]): ver={} dst={:#x} src={:#x} som={} eom={} seq={} to={} tag={}", t.hdr_version(), t.dest_endpoint_id(), t.source_endpoint_id(), t.som(), t.eom(), t.pkt_seq(), t.to(), t.msg_tag())));
-        let (nr, g) = lib_set(&FIELDS[17], 0xFFFF, 0x2A);
+        let (_, nr, g) = lib_set(&FIELDS[17], 0xFFFF, 0x2A);
         rep.sample(|| J::s(format!("MCTPControlMessageHeader raw 0xffff, set_instance_id(0x2a) -> raw {:#06x}, instance_id() = {:#x}", nr, g)));
     }
     let _ = Rng::new(0);
